@@ -100,7 +100,13 @@ def run(ctx):
     # a source that makes the assembler die abnormally, if the tree under test has one (classified by actually running it)
     cand = [b"\tINT\t256\n", b"A\tEQU\tA+1\n\tDB\tA\n", b"\tINT\tAX\n"]
     candid = [R.add([], src=c.decode(), notrace=True) for c in cand]
+    # a source that passes the parser and pass 1 but makes pass 2 give up (a branch to a label whose name the placeholder
+    # mechanism cannot express); classified by running it: the situation exists only if the tree under test really fails there
+    p2cand = b"\tJMP\t.l\n.l:\n\tHLT\n"
+    p2id = R.add([], src=p2cand.decode(), notrace=True)
     R.run()
+    if R.end(p2id).get("status") == "exit" and R.end(p2id).get("exit") not in (0,):
+        texts["pass2fail"] = p2cand
     crash_src = None
     for c, i in zip(cand, candid):
         if R.end(i).get("status") in ("panic", "signal", "timeout") or (R.end(i).get("status") == "exit" and R.end(i).get("exit") not in (0,)):
@@ -146,7 +152,7 @@ def run(ctx):
     nsit = 0
     for nargs in (0, 1, 2, 3):
         for flag in ("", "-v"):
-            for src in ("missing", "dir", "empty", "flat", "coff", "parseerr") + (("crash",) if "crash" in texts else ()):
+            for src in ("missing", "dir", "empty", "flat", "coff", "parseerr") + (("crash",) if "crash" in texts else ()) + (("pass2fail",) if "pass2fail" in texts else ()):
                 for dst in ("absent", "garbage", "nodir", "isdir"):
                     d = os.path.join(work, "s%d" % nsit)
                     os.makedirs(d)
